@@ -47,6 +47,7 @@ inductive Cond where
   | isNInf                     -- math.IsInf(x, -1)
   | isTrue                     -- x (a bool)
   | isBlank                    -- trimmed == ""
+  | isNil                      -- x == nil (a typed nil pointer; the model's `big` source is never nil)
   | or (a b : Cond)
   | and (a b : Cond)
   | not (a : Cond)
@@ -165,6 +166,10 @@ def Cond.eval (s : Src) : Cond → Option Bool
     | _ => none
   | .isBlank => match s with
     | .str i => some i.blank
+    | _ => none
+  | .isNil => match s with
+    | .big _ => some false
+    | .nilptr => some true
     | _ => none
   | .or a b => do
     let p ← a.eval s
